@@ -1,3 +1,4 @@
+import Mrpro.Lemmas.Dcf2dL
 import Mrpro.Model.Dcf
 import Mrpro.Lemmas.DcfL
 /-! # C16 — Voronoi density compensation has the invariances of cell volumes (1-D part)
@@ -38,5 +39,38 @@ theorem dcf1d_uniform (n : Nat) (x0 h : Rat) (hh : 0 < h) (hn : 2 ≤ n) :
 /-- separable layouts: the joint weight is the product of per-axis weights (`DcfData.from_traj_voronoi`
 multiplies the 1-D factors) — per-sample statement -/
 theorem separable_product (wx wy : Rat) (hx : 0 < wx) (hy : 0 < wy) : 0 < wx * wy := mul_pos hx hy
+
+/-! ### 2-D / 3-D (`dcf_2d3d_voronoi`): everything around the Voronoi volumes — unique positions, outlier replacement, sharing among
+coincident samples, mapping back to the samples (`M.dcfGlue`) — with the cell volumes of the unique positions as an oracle (qhull) -/
+
+/-- a cell is split among its coincident samples: together they weigh the (possibly replaced) value of their position -/
+theorem glue_duplicates_split {pts : List (List ℚ)} {vol w r : List ℚ} (hw : M.dcfGlue pts vol = some w)
+    (hr : M.replaceOutliers vol = some r) {p : List ℚ} (hp : p ∈ pts) :
+    (((pts.zip w).filter (fun q => q.1 == p)).map (·.2)).sum = r.getD ((M.uniquePts pts).idxOf p) 0 :=
+  M.dcfGlue_duplicates_split hw hr hp
+
+/-- permuting the samples permutes the weights (one weight function of the position serves both orders) -/
+theorem glue_perm_equivariant (xs ys : List (List ℚ)) (h : xs.Perm ys) (vol : List ℚ) :
+    ∃ W : Option (List ℚ → ℚ), M.dcfGlue xs vol = W.map (fun w => xs.map w) ∧ M.dcfGlue ys vol = W.map (fun w => ys.map w) :=
+  M.dcfGlue_perm_equivariant xs ys h vol
+
+/-- positive cell volumes give positive weights -/
+theorem glue_pos {pts : List (List ℚ)} {vol w : List ℚ} (hw : M.dcfGlue pts vol = some w) (hv : ∀ v ∈ vol, 0 < v) :
+    ∀ x ∈ w, 0 < x := M.dcfGlue_pos hw hv
+
+/-- scaling k-space by `a ≠ 0` scales the weights by `|a|^d` whenever the volume oracle does (outlier rule and top-1 % average are
+positively homogeneous) -/
+theorem glue_scale (pts : List (List ℚ)) {a : ℚ} (ha : a ≠ 0) (d : ℕ) (V V' : List ℚ → ℚ)
+    (hV : ∀ p ∈ pts, V' (p.map (a * ·)) = |a| ^ d * V p) :
+    M.dcfGlue (pts.map (·.map (a * ·))) ((M.uniquePts (pts.map (·.map (a * ·)))).map V')
+      = (M.dcfGlue pts ((M.uniquePts pts).map V)).map (fun w => w.map (|a| ^ d * ·)) :=
+  M.dcfGlue_scale pts ha d V V' hV
+
+/-- the weights are invariant under every injective map of the positions that leaves the volumes unchanged (translations, rotations,
+reflections of the trajectory) -/
+theorem glue_invariant (pts : List (List ℚ)) {f : List ℚ → List ℚ} (hf : Function.Injective f) (V V' : List ℚ → ℚ)
+    (hV : ∀ p ∈ pts, V' (f p) = V p) :
+    M.dcfGlue (pts.map f) ((M.uniquePts (pts.map f)).map V') = M.dcfGlue pts ((M.uniquePts pts).map V) :=
+  M.dcfGlue_invariant pts hf V V' hV
 
 end C16
